@@ -262,6 +262,47 @@ class Taint:
                     k = self.vkey(b, t['op'])
                     if k:
                         res.setdefault(bi, []).append((k, None, 0 in t['vals'] or 1 in t['vals']))
+            if t['k'] == 'call' and 'q' in t['callee'] and t['args'] and not t['dest']['p'] and \
+                    t['callee']['q'] in ('core::convert::TryFrom::try_from', 'core::convert::TryInto::try_into'):
+                # `match T::try_from(x) { Ok(..) => .., Err(..) => .. }`: the dispatch on the result is a range check of x
+                k = self.vkey(b, t['args'][0])
+                if k:
+                    d = t['dest']['l']
+                    holders = {d}
+                    for bj in b.live:
+                        for st in b.blocks[bj]['stmts']:
+                            if st['k'] == 'assign' and not st['pl']['p'] and st['rv']['k'] == 'discr' and not st['rv']['pl']['p'] \
+                                    and st['rv']['pl']['l'] in holders:
+                                holders.add(st['pl']['l'])
+                        tj = b.blocks[bj]['term']
+                        if tj['k'] == 'switch' and tj['op']['k'] in ('copy', 'move') and not tj['op']['pl']['p'] \
+                                and tj['op']['pl']['l'] in holders and tj['op']['pl']['l'] != d:
+                            res.setdefault(bj, []).append((k, None, False))
+            if t['k'] == 'call' and 'q' in t['callee'] and len(t['args']) == 2 and not t['dest']['p'] and \
+                    t['callee']['q'] in ('core::cmp::Ord::cmp', 'core::cmp::PartialOrd::partial_cmp'):
+                # `match a.cmp(&b) { Less => .., Equal => .., Greater => .. }` is a comparison of a with b
+                ents = []
+                ops2 = []
+                for a in t['args']:
+                    base = b.base_of(a)
+                    ops2.append({'k': 'copy', 'pl': {'l': base[0], 'p': []}} if base and not base[1] else None)
+                for x, y in ((ops2[0], ops2[1]), (ops2[1], ops2[0])):
+                    if x is not None:
+                        k = self.vkey(b, x)
+                        if k:
+                            ents.append((k, y, False))
+                if ents:
+                    d = t['dest']['l']
+                    holders = {d}
+                    for bj in b.live:
+                        for st in b.blocks[bj]['stmts']:
+                            if st['k'] == 'assign' and not st['pl']['p'] and st['rv']['k'] in ('discr', 'use', 'cast') and \
+                                    (st['rv'].get('pl') or st['rv'].get('op', {}).get('pl') or {}).get('l') in holders and \
+                                    not (st['rv'].get('pl') or st['rv'].get('op', {}).get('pl') or {'p': [1]})['p']:
+                                holders.add(st['pl']['l'])
+                        tj = b.blocks[bj]['term']
+                        if tj['k'] == 'switch' and tj['op']['k'] in ('copy', 'move') and not tj['op']['pl']['p'] and tj['op']['pl']['l'] in holders:
+                            res.setdefault(bj, []).extend(ents)
             if t['k'] == 'call' and 'q' in t['callee'] and callee_q(t).endswith(('::is_empty',)) and t['args']:
                 nb = t['t']
                 if nb is not None and b.blocks[nb]['term']['k'] == 'switch':
@@ -534,6 +575,9 @@ class Taint:
                     if ak in SINK_ASSERT_ALWAYS or (ak in SINK_ASSERT_WIDE and m == 2):
                         ops = [o for o, l1 in zip(aops, lv) if l1]
                         guards = [self.op_sanitised(b, o, bi) for o in ops]
+                        if ak == 'BoundsCheck' and len(aops) == 2 and self.const_of(b, aops[1]) is not None \
+                                and self.fixed_window(b) > self.const_of(b, aops[1]):
+                            guards = [-1 for _ in ops]      # item of windows(n) / chunks_exact(n): exactly n elements by contract
                         ok = all(g is not None for g in guards)
                         out.append(self.site(b, ak, aops, t['loc'], m, ok, guards, dest=self.result_dest(b, t)))
                 elif t['k'] == 'call' and 'q' in t['callee']:
@@ -567,6 +611,29 @@ class Taint:
                                                          [o], st['loc'], l1, g is not None, [g]))
         return out
 
+    def const_of(self, b, o, depth=0):
+        if o['k'] == 'const':
+            return o.get('int')
+        if o['k'] in ('copy', 'move') and not o['pl']['p'] and depth < 4:
+            ds = b.defs().get(o['pl']['l'], [])
+            if len(ds) == 1 and ds[0][0] == 'assign' and ds[0][1]['rv']['k'] in ('use', 'cast'):
+                return self.const_of(b, ds[0][1]['rv']['op'], depth + 1)
+        return None
+
+    def fixed_window(self, b):
+        """for a closure applied to the items of `windows(n)` / `chunks_exact(n)` with a constant n: that n (else 0)"""
+        if b.raw['kind'] != 'Closure' or not b.raw.get('parent'):
+            return 0
+        pb = self.f.bodies.get(b.raw['parent']) or getattr(self.f, 'original', {}).get(b.raw['parent'])
+        if pb is None:
+            return 0
+        n = 0
+        for bi, t in pb.calls():
+            if 'q' in t['callee'] and callee_q(t).split('::')[-1] in ('windows', 'chunks_exact', 'array_windows') and len(t['args']) > 1 \
+                    and t['args'][1]['k'] == 'const' and 'int' in t['args'][1]:
+                n = max(n, t['args'][1]['int'])
+        return n
+
     def divisor_of(self, b, t):
         c = t['cond']
         if c['k'] not in ('copy', 'move'):
@@ -577,7 +644,7 @@ class Taint:
         return None
 
     def result_dest(self, b, t):
-        """where the checked arithmetic result goes: a named place (field / user variable) or 'tmp'"""
+        """where the checked arithmetic result goes: a field (by name), a mutable variable ('var'), or a temporary ('tmp')"""
         nb = t.get('t')
         if nb is None:
             return 'tmp'
@@ -586,8 +653,12 @@ class Taint:
                     and st['rv']['op']['pl']['p'] and st['rv']['op']['pl']['p'][-1]['k'] == 'field':
                 pl = st['pl']
                 base = b.base_of_place(pl)
-                s = b.name(base[0]) + ''.join('.' + str(x[1]) for x in base[1])
-                return 'tmp' if s.startswith('_') else s
+                if base[1]:
+                    return self.place_desc(b, pl)
+                l = base[0]
+                if b.locals[l]['name'] and b.locals[l].get('user') and len(b.defs().get(l, [])) > 1:
+                    return 'var'
+                return 'tmp'
         return 'tmp'
 
     def site(self, b, kind, ops, loc, level, guarded, guards, dest=None):
@@ -610,69 +681,63 @@ class Taint:
                     return gs[0]
         return None
 
+    # ---- operand descriptions: what identifies a site in a key.  Built from provenance only (parameters by position,
+    #      fields by name, calls by name) so that renaming a local variable does not change a key.
     def desc(self, b, ops):
-        r = []
-        for o in ops:
-            if o['k'] in ('copy', 'move'):
-                pl = o['pl']
-                base = b.base_of_place(pl)
-                s = b.name(base[0]) + ''.join('.' + str(x[1]) for x in base[1])
-                if s.startswith('_'):
-                    s = self.def_desc(b, pl['l']) or s
-                r.append(s)
-            else:
-                r.append(str(o.get('int', o.get('s'))))
-        return r
+        return [self.describe(b, o) for o in ops]
+
+    def local_desc(self, b, l, depth=0):
+        if 1 <= l <= b.arg_count:
+            if b.locals[l]['name'] == 'self':
+                return 'self'
+            if b.raw['kind'] == 'Closure':
+                return 'env' if l == 1 else 'p%d' % (l - 2)
+            return 'p%d' % (l - 1)
+        # a parameter of an inlined helper is what was passed for it
+        ds = b.defs().get(l, [])
+        if len(ds) != 1 or depth > 5:
+            return 'var'
+        return self.def_desc(b, l, depth) or 'var'
+
+    def place_desc(self, b, pl, depth=0):
+        base = b.base_of_place(pl)
+        s = self.local_desc(b, base[0], depth + 1)
+        s += ''.join('.' + str(x[1]) for x in base[1])
+        if any(p['k'] in ('index', 'constindex', 'subslice') for p in pl['p']):
+            s += '[]'
+        return s
+
+    def describe(self, b, o, depth=0):
+        if o['k'] in ('copy', 'move'):
+            return self.place_desc(b, o['pl'], depth)
+        return str(o.get('int', o.get('s')))
 
     def def_desc(self, b, l, depth=0):
         ds = b.defs().get(l, [])
-        if len(ds) != 1 or depth > 4:
+        if len(ds) != 1 or depth > 5:
             return ''
         d = ds[0]
         if d[0] == 'call':
             if 'q' not in d[1]['callee']:
                 return 'call(..)'
             inner = ''
-            if d[1]['args'] and d[1]['args'][0]['k'] in ('copy', 'move'):
-                a = d[1]['args'][0]
-                base = b.base_of_place(a['pl'])
-                inner = b.name(base[0]) + ''.join('.' + str(x[1]) for x in base[1])
-                if inner.startswith('_'):
-                    inner = self.def_desc(b, a['pl']['l'], depth + 1) or '..'
+            if d[1]['args']:
+                inner = self.describe(b, d[1]['args'][0], depth + 1)
             return callee_q(d[1]).split('::')[-1] + '(' + inner + ')'
+        if d[0] != 'assign':
+            return ''
         rv = d[1]['rv']
-        if rv['k'] in ('use', 'cast') and rv['op']['k'] in ('copy', 'move'):
-            pl = rv['op']['pl']
-            base = b.base_of_place(pl)
-            s = b.name(base[0]) + ''.join('.' + str(x[1]) for x in base[1])
-            if s.startswith('_'):
-                s = self.def_desc(b, pl['l'], depth + 1) or s
-            return s
+        if rv['k'] in ('use', 'cast'):
+            return self.describe(b, rv['op'], depth + 1)
         if rv['k'] == 'binop':
-            parts = []
-            for o in (rv['a'], rv['b']):
-                if o['k'] in ('copy', 'move'):
-                    base = b.base_of_place(o['pl'])
-                    s = b.name(base[0]) + ''.join('.' + str(x[1]) for x in base[1])
-                    if s.startswith('_'):
-                        s = self.def_desc(b, o['pl']['l'], depth + 1) or '..'
-                    parts.append(s)
-                else:
-                    parts.append(str(o.get('int', '?')))
+            parts = [self.describe(b, o, depth + 1) for o in (rv['a'], rv['b'])]
             return '(' + (' %s ' % rv['op'].replace('WithOverflow', '')).join(parts) + ')'
         if rv['k'] == 'agg':
             return 'range' if 'Range' in (rv.get('adt') or '') else rv['k']
         if rv['k'] in ('ref', 'rawptr'):
-            pl = rv['pl']
-            base = b.base_of_place(pl)
-            s = b.name(base[0]) + ''.join('.' + str(x[1]) for x in base[1])
-            if s.startswith('_'):
-                s = self.def_desc(b, pl['l'], depth + 1) or s
-            return s
+            return self.place_desc(b, rv['pl'], depth + 1)
         if rv['k'] == 'unop':
-            o = rv['a']
-            if o['k'] in ('copy', 'move'):
-                return rv['op'] + '(' + (self.def_desc(b, o['pl']['l'], depth + 1) or b.name(o['pl']['l'])) + ')'
+            return rv['op'] + '(' + self.describe(b, rv['a'], depth + 1) + ')'
         return rv['k']
 
 
